@@ -41,6 +41,7 @@ class FISTA(BaseSolver):
 
     def _solve(self, X, y, datafit, penalty, w_init=None, Xw_init=None):
         p_objs_out = []
+        stop_crit = np.inf  # initialize for case max_iter=0
         n_samples, n_features = X.shape
         all_features = np.arange(n_features)
         X_is_sparse = issparse(X)
